@@ -286,6 +286,23 @@ func c13NumeralCheck(c *fw.Ctx, text string) *fw.Violation {
 	return nil
 }
 
+// c13LongCheck: a string literal, a name and a regex literal of n bytes denote all their bytes.
+func c13LongCheck(c *fw.Ctx, n int, q string) *fw.Violation {
+	body := strings.Repeat("ab", n/2) + strings.Repeat("c", n%2)
+	name := "v" + strings.Repeat("x", n-1)
+	prog := "BEGIN { s = " + q + body + q + "; print s.length(), s == (" + q + body[:n-1] + q + " + " + q + body[n-1:] + q + "); " + name + " = 5; print " + name + " + 1; print (s ~ /^" + body + "$/) }"
+	s := drive.Spec{Program: prog, Budget: 1_000_000}
+	o := run(c, s)
+	c.Traces++
+	c.Transitions++
+	want := fmt.Sprintf("%d true\n6\ntrue\n", n)
+	if o.Kind != drive.KNone || o.Stdout != want {
+		o.Ev = nil
+		return &fw.Violation{What: fmt.Sprintf("a string literal, name or regex literal of %d bytes does not denote all its bytes", n), Detail: detail{Program: clip(prog), WantStdout: want, Got: o}}
+	}
+	return nil
+}
+
 var c13GlueOps = []string{"+", "-", "*", "/", "%", "<", ">", "<=", ">=", "==", "!=", "&&", "||"}
 
 // c13GlueCheck: numerals never absorb an adjacent operator: "3-1" means "3 - 1" in every spacing.
@@ -327,7 +344,7 @@ func init() {
 		ID: "C13",
 		Rule: fmt.Sprintf("(i) %d seed programs (every statement and expression form) as token lists: every gap x its permitted deviations (two blanks, tab, CR, newline and comment+newline where DESIGN.md 3.18 allows a line break, ';' / blank lines / CRLF / a comment for statement separators) and every pair of such deviations (thorough: triples on the gaps of a line-break-only deviation set); ", ns) +
 			"oracle: same stdout, outcome and JSON output as the canonical layout (which the model confirms); (ii) every ordered pair and triple of the 66 token spellings written without blanks, and with one blank, through the lexer hook against a reference lexer written from 3.18 (segmentation, token class, lexical validity); " +
-			"(iii) all string literal contents of length <= 3 (thorough 4) over {a, blank, #, ', \", \\, n, t, q, é} in both quote styles against the model's escape rules, concatenated / assigned and as the only literal of the program in 14 syntactic positions (operand of == != < >= on either side, if condition, match pattern and subject, index key, call / printf / contains argument, array element, object value, method receiver, && operand, return value) compared with the denoted string supplied by the input; (iv) numerals incl. leading zeros and 25-digit integers / fractions against a math/big nearest-double oracle, and every numeral-operator-numeral spelling without blanks; " +
+			"(iii) all string literal contents of length <= 3 (thorough 4) over {a, blank, #, ', \", \\, n, t, q, é} in both quote styles against the model's escape rules, concatenated / assigned and as the only literal of the program in 14 syntactic positions (operand of == != < >= on either side, if condition, match pattern and subject, index key, call / printf / contains argument, array element, object value, method receiver, && operand, return value) compared with the denoted string supplied by the input; (iv) numerals incl. leading zeros, every prefix of four 25-digit strings with the point at every place (1 300 numerals) against a math/big nearest-double oracle, string literals / names / regex literals of 255 ... 131 077 bytes, and every numeral-operator-numeral spelling without blanks; " +
 			"(v) every keyword with a letter, digit or underscore glued before or after it used as a variable; states = lexical classes and literal outcomes; non-trivial = escapes that yield a value",
 		Plan:  func(t fw.Tier) int { return ns*layoutParts + nt + 4 },
 		Bound: func(t fw.Tier) string { return "k=2 layout deviations (thorough: +k=3 over line-break deviations); token pairs and triples; strings <= 3 (4)" },
@@ -421,11 +438,31 @@ func init() {
 					}
 				}
 				rec("")
+				// every prefix of four digit strings with the point at every place: all lengths 1-25, every split between
+				// integer and fraction digits (the nearest double of a 16-19 digit numeral needs exact conversion)
+				for _, digits := range []string{"1004999999999999912345678", "9007199254740993000000001", "1234567890123456789012345", "4503599627370496500000000"} {
+					for L := 1; L <= len(digits); L++ {
+						for p := 1; p <= L; p++ {
+							n := digits[:p]
+							if p < L {
+								n += "." + digits[p:L]
+							}
+							nums = append(nums, n)
+						}
+					}
+				}
 				for _, n := range nums {
 					s := c13Spec{Form: "numeral", Text: n}
 					c.Do(func() any { return s }, func() *fw.Violation { return c13NumeralCheck(c, n) })
 				}
 			case u == ns*layoutParts+nt+2:
+				// literals and names longer than any 16-bit length
+				for _, n := range []int{255, 256, 65535, 65536, 65537, 70000, 131077} {
+					for _, q := range []string{"\"", "'"} {
+						n, q := n, q
+						c.Do(func() any { return c13Spec{Form: "long", Seed: n, Q: q} }, func() *fw.Violation { return c13LongCheck(c, n, q) })
+					}
+				}
 				for _, a := range []string{"3", "1.5", "10", "0", "7"} {
 					for _, b := range []string{"1", "0.5", "2", "3"} {
 						for _, op := range c13GlueOps {
@@ -460,6 +497,8 @@ func init() {
 				return c13StringCheck(c, s.Text, s.Q[0])
 			case "stringpos":
 				return c13StringPosCheck(c, s.Text, s.Q[0], s.Seed)
+			case "long":
+				return c13LongCheck(c, s.Seed, s.Q)
 			case "numeral":
 				return c13NumeralCheck(c, s.Text)
 			case "glue":
